@@ -21,7 +21,19 @@ of the script into <tmp>/s<i>/ and configures that path as the first argument;
 the witness writes its record next to its own file.  So the configured
 args/env reach the comparison untouched.
 
+Further launch modes (see MODES): servers of one file that share command AND args
+and differ only in env (the witness then learns its record directory from an env
+variable the configuration carries, or from which PATH directory it was found in)
+or only in timeout / unknown keys; and a program named by a bare command name,
+installed as an executable '#!<python>' copy of the witness in a directory that
+only the configured env's PATH names, with a decoy of the same name in a
+directory that only the harness's own PATH names.
+
 Oracle (independent of the library):
+  * a bare command is resolved on the PATH the child is given (configured env, or
+    the default env when env is absent) - the decoy never runs
+  * servers sharing command+args are different servers: each requested one is
+    launched once, with its own env
   * exactly one launch of every requested server, none of the others
   * recorded argv bytes == [command, *args] of the config entry (os.fsencode)
   * env configured with values: recorded env restricted to the configured keys
@@ -54,6 +66,18 @@ from .. import core, explorer, sched
 RUN = "vf.checks.c20:run_one"
 
 WITNESS_SRC = os.path.join(os.path.dirname(os.path.dirname(os.path.abspath(__file__))), "children", "witness.py")
+
+def _witness_python() -> str:
+    """The interpreter the configurations name as command.  The venv's python spends ~35 ms per start in
+    site-packages .pth hooks the witness has no use for; the interpreter underneath the venv is the same binary
+    without them."""
+    base = getattr(sys, "_base_executable", None)
+    if base and os.path.isabs(base) and os.path.isfile(base) and os.access(base, os.X_OK):
+        return base
+    return sys.executable
+
+
+WITNESS_PY = _witness_python()
 
 # ---------------------------------------------------------------------------
 # the grammar (module-level tables; cfgs hold indices only)
@@ -99,6 +123,16 @@ R_SHAPES: List[List[int]] = [
     [6, 3, 4, 0],   # --k=v -x,     env {"A":"","B":"x y"}, timeout "7.5",     no extras
     [4, 1, 2, 1],   # args "é",     env {},                timeout 2.5,       extras
 ]
+
+# shapes that share command AND args within one file (6 elements: args, env, timeout, extra, mode, path form);
+# they differ only in env, or only in timeout / an extra key
+D_SHAPES: List[List[int]] = [
+    [2, 2, 0, 0, 1, 0],   # WITNESS_PY + shared script, env {"A":"1", sink var = own dir}
+    [2, 2, 1, 0, 3, 0],   # bare command name, env {"A":"1", PATH = own bin dir}, timeout 5
+    [2, 0, 0, 0, 2, 0],   # WITNESS_PY + shared script, env absent
+    [2, 0, 2, 1, 2, 0],   # the same, but timeout 2.5 and unknown extra keys
+]
+D_SHAPES_TRIPLES_QUICK = [0, 2, 3]
 
 MISSING_VARIANTS = ["nonexistent-file", "nonexistent-dir", "empty-path"]
 INVALID_JSON: List[Tuple[str, str]] = [
@@ -173,6 +207,9 @@ class _Quiet:
     """Capture print() output; send fd 1 / fd 2 (os.system('clear'), the child's
     inherited stderr, 'Exception ignored' notes) to /dev/null."""
 
+    def __init__(self, collect: bool = True):
+        self.collect = collect
+
     def __enter__(self):
         sys.stdout.flush()
         sys.stderr.flush()
@@ -188,7 +225,8 @@ class _Quiet:
 
     def __exit__(self, *a):
         try:
-            gc.collect()  # drop transports of closed loops while fd 2 is still muted
+            if self.collect:
+                gc.collect()  # drop transports of closed loops while fd 2 is still muted
             sys.stderr.flush()
         finally:
             sys.stdout = self.old
@@ -294,43 +332,143 @@ def _read_events(path: str) -> List[dict]:
     return out
 
 
-def server_entry(shape: List[int], script: str) -> Dict[str, Any]:
-    a, e, t, x = shape
-    d: Dict[str, Any] = {"command": sys.executable, "args": [script] + list(ARGS[a][1])}
-    if ENVS[e][1] is not ABSENT:
-        d["env"] = dict(ENVS[e][1])
+BARE_NAME = "c20-witness-cmd"      # a command name without a slash: found through a PATH
+SINK_VAR = "C20_WITNESS_DIR"         # witness: record into this directory instead of the script's own
+# how a server entry names its program and how the witness learns where to record (6th/5th element of a shape)
+MODES = [
+    "own-script",                    # 0 command=WITNESS_PY, args[0]=<tmp>/s<i>/witness.py          record: s<i>
+    "shared-script+sink-in-env",     # 1 args[0]=<tmp>/shared/witness.py, env carries SINK_VAR=s<i>      record: s<i>
+    "shared-script",                 # 2 args[0]=<tmp>/shared/witness.py, env absent/{}                   record: shared
+    "bare-name+PATH-in-env",         # 3 command=BARE_NAME, env PATH names <tmp>/s<i>/bin                 record: s<i>/bin
+    "absolute-wrapper+PATH-in-env",  # 4 command=<tmp>/s<i>/bin/BARE_NAME (control), same env             record: s<i>/bin
+    "bare-name+env-absent",          # 5 command=BARE_NAME, env absent: the default env's PATH decides    record: s<i>/bin
+]
+PATH_FORMS = [("only", "{d}"), ("first", "{d}:/usr/bin:/bin"), ("last", "/usr/bin:/bin:{d}")]
+# the harness process's own PATH during the case (restored afterwards)
+HOST_PATHS = ["plain", "decoy-prepended", "decoy-appended", "own-prepended"]
+
+
+def _full(shape: List[int]) -> List[int]:
+    return (list(shape) + [0, 0])[:6] if len(shape) < 6 else list(shape)
+
+
+def _with_values(env: Any) -> bool:
+    return env is not ABSENT and bool(env)
+
+
+def server_spec(i: int, shape: List[int], tmp: str) -> Dict[str, Any]:
+    """What the config entry of server i says and what a faithful launch of it looks like."""
+    a, e, t, x, m, pf = _full(shape)
+    own = os.path.join(tmp, f"s{i}")
+    shared_script = os.path.join(tmp, "shared", "witness.py")
+    bindir = os.path.join(own, "bin")
+    prog = os.path.join(bindir, BARE_NAME)
+    base = ENVS[e][1]
+    args = list(ARGS[a][1])
+    env_name = ENVS[e][0]
+    if m == 0:
+        script = os.path.join(own, "witness.py")
+        command, cargs, env, sink = WITNESS_PY, [script] + args, base, own
+        exp_argv = [command] + cargs
+    elif m == 1:
+        env = dict(base) if _with_values(base) else {}
+        env[SINK_VAR] = own
+        command, cargs, sink = WITNESS_PY, [shared_script] + args, own
+        exp_argv = [command] + cargs
+        env_name += "+sink-var"
+    elif m == 2:
+        if _with_values(base):
+            raise core.HarnessError("grammar: mode shared-script needs env absent or {}")
+        command, cargs, env, sink = WITNESS_PY, [shared_script] + args, base, os.path.join(tmp, "shared")
+        exp_argv = [command] + cargs
+    elif m in (3, 4):
+        env = dict(base) if _with_values(base) else {}
+        env["PATH"] = PATH_FORMS[pf][1].format(d=bindir)
+        command = BARE_NAME if m == 3 else prog
+        cargs, sink = args, bindir
+        exp_argv = [WITNESS_PY, prog] + args     # '#!<WITNESS_PY>' wrapper: kernel passes interpreter + file
+        env_name += "+PATH-" + PATH_FORMS[pf][0]
+    elif m == 5:
+        if _with_values(base):
+            raise core.HarnessError("grammar: mode bare-name+env-absent needs env absent or {}")
+        command, cargs, env, sink = BARE_NAME, args, base, bindir
+        exp_argv = [WITNESS_PY, prog] + args
+    else:
+        raise core.HarnessError(f"grammar: unknown mode {m}")
+    entry: Dict[str, Any] = {"command": command, "args": cargs}
+    if env is not ABSENT:
+        entry["env"] = dict(env)
     if TIMEOUTS[t][1] is not ABSENT:
-        d["timeout"] = TIMEOUTS[t][1]
-    d.update(EXTRAS[x][1])
-    return d
+        entry["timeout"] = TIMEOUTS[t][1]
+    entry.update(EXTRAS[x][1])
+    return {"entry": entry, "sink": sink, "exp_argv": exp_argv, "env": env, "env_name": env_name, "mode": m,
+            "own": own, "bindir": bindir, "prog": prog, "shape": [a, e, t, x, m, pf]}
 
 
 def shape_text(shape: List[int]) -> str:
-    a, e, t, x = shape
+    a, e, t, x, m, pf = _full(shape)
     env = "absent" if ENVS[e][1] is ABSENT else repr(ENVS[e][1])
     tmo = "absent" if TIMEOUTS[t][1] is ABSENT else repr(TIMEOUTS[t][1])
-    return f"args={ARGS[a][1]!r} env={env} timeout={tmo} extra={EXTRAS[x][0]}"
+    out = f"args={ARGS[a][1]!r} env={env} timeout={tmo} extra={EXTRAS[x][0]}"
+    if m == 1:
+        out += f" [command+args shared with the other servers of the file; env also has {SINK_VAR}=<own dir>]"
+    elif m == 2:
+        out += " [command+args shared with the other servers of the file]"
+    elif m in (3, 4):
+        what = f"command={BARE_NAME!r} (bare)" if m == 3 else f"command=<own dir>/bin/{BARE_NAME} (absolute)"
+        out += f" [{what}; env also has PATH={PATH_FORMS[pf][1].format(d='<own dir>/bin')}]"
+    elif m == 5:
+        out += f" [command={BARE_NAME!r} (bare)]"
+    return out
+
+
+def _install_wrapper(path: str) -> None:
+    """An executable named BARE_NAME: the witness itself behind a '#!<WITNESS_PY>' line."""
+    if any(c.isspace() for c in WITNESS_PY) or len(WITNESS_PY) > 120:
+        raise core.HarnessError(f"cannot use {WITNESS_PY!r} in a #! line")
+    os.makedirs(os.path.dirname(path), exist_ok=True)
+    with open(WITNESS_SRC, "r", encoding="utf-8") as f:
+        body = f.read()
+    with open(path, "w", encoding="utf-8") as f:
+        f.write("#!" + WITNESS_PY + "\n" + body)
+    os.chmod(path, 0o755)
 
 
 # ---------------------------------------------------------------------------
 # building the case on disk
 # ---------------------------------------------------------------------------
-def _build(cfg: Dict[str, Any], tmp: str) -> Tuple[str, List[str], List[Optional[Dict[str, Any]]]]:
-    """Returns (config_path, server dirs, configured server entries by index)."""
+def _build(cfg: Dict[str, Any], tmp: str) -> Tuple[str, List[Dict[str, Any]], Optional[str]]:
+    """Returns (config_path, server specs by index, decoy bin directory or None)."""
     shapes: List[List[int]] = cfg.get("servers") or []
-    dirs, entries = [], []
+    specs: List[Dict[str, Any]] = []
     servers: Dict[str, Any] = {}
     top_extra: Dict[str, Any] = {}
+    decoy_bin: Optional[str] = None
     for i, shape in enumerate(shapes):
-        d = os.path.join(tmp, f"s{i}")
-        os.mkdir(d)
-        script = os.path.join(d, "witness.py")
-        shutil.copyfile(WITNESS_SRC, script)
-        ent = server_entry(shape, script)
-        servers[NAMES[i]] = ent
-        entries.append(ent)
-        dirs.append(d)
-        top_extra.update(EXTRAS[shape[3]][2])
+        sp = server_spec(i, shape, tmp)
+        os.makedirs(sp["own"], exist_ok=True)
+        m = sp["mode"]
+        if m == 0:
+            shutil.copyfile(WITNESS_SRC, os.path.join(sp["own"], "witness.py"))
+        elif m in (1, 2):
+            os.makedirs(os.path.join(tmp, "shared"), exist_ok=True)
+            shutil.copyfile(WITNESS_SRC, os.path.join(tmp, "shared", "witness.py"))
+        else:
+            _install_wrapper(sp["prog"])
+            if decoy_bin is None:
+                # a different executable of the same name that the configuration does not name
+                decoy_bin = os.path.join(tmp, "decoy", "bin")
+                _install_wrapper(os.path.join(decoy_bin, BARE_NAME))
+        servers[NAMES[i]] = sp["entry"]
+        specs.append(sp)
+        top_extra.update(EXTRAS[sp["shape"][3]][2])
+    # servers recording into the same place must be indistinguishable launches
+    by_sink: Dict[str, List[Dict[str, Any]]] = {}
+    for sp in specs:
+        by_sink.setdefault(sp["sink"], []).append(sp)
+    for group in by_sink.values():
+        if len(group) > 1 and any(g["exp_argv"] != group[0]["exp_argv"] or _with_values(g["env"]) for g in group):
+            raise core.HarnessError("grammar: two distinguishable servers share a record location")
     path = os.path.join(tmp, "config.json")
     mal = cfg.get("malformed")
     doc: Dict[str, Any] = dict(top_extra)
@@ -343,16 +481,29 @@ def _build(cfg: Dict[str, Any], tmp: str) -> Tuple[str, List[str], List[Optional
             path = os.path.join(tmp, "no-such-dir", "config.json")
         else:
             path = ""
-        return path, dirs, entries
+        return path, specs, decoy_bin
     if mal and mal["class"] == "invalid-json":
         with open(path, "w", encoding="utf-8") as f:
             f.write(INVALID_JSON[mal["variant"]][1])
-        return path, dirs, entries
+        return path, specs, decoy_bin
     if mal and mal["class"] == "unknown-name" and UNKNOWN_FILES[mal["file"]] == "no-mcpServers-key":
         doc = {"servers": {}, "version": 1}
     with open(path, "w", encoding="utf-8") as f:
         json.dump(doc, f, ensure_ascii=False, indent=1)
-    return path, dirs, entries
+    return path, specs, decoy_bin
+
+
+def _launches_in(directory: str, pids: List[int]) -> List[Dict[str, Any]]:
+    by_pid: Dict[Any, Dict[str, Any]] = {}
+    for ev in _read_events(os.path.join(directory, "events.jsonl")):
+        pid = ev.get("pid")
+        if ev.get("ev") == "start":
+            by_pid[pid] = {"argv": ev.get("argv") or [], "env": ev.get("env") or {}, "methods": []}
+            if isinstance(pid, int) and pid not in pids:
+                pids.append(pid)
+        elif ev.get("ev") == "recv" and pid in by_pid:
+            by_pid[pid]["methods"].append([ev.get("method"), bool(ev.get("has_id"))])
+    return [by_pid[p] for p in by_pid]  # insertion order = launch order
 
 
 # ---------------------------------------------------------------------------
@@ -490,6 +641,11 @@ def case_text(cfg: Dict[str, Any]) -> str:
             parts.append("one unknown name among valid ones")
     for i, s in enumerate(cfg.get("servers") or []):
         parts.append(f"server[{NAMES[i]!r}]: {shape_text(s)}")
+    hp = cfg.get("host_path") or "plain"
+    if hp != "plain":
+        parts.append({"decoy-prepended": f"harness PATH starts with a directory holding a different {BARE_NAME!r}",
+                      "decoy-appended": f"harness PATH ends with a directory holding a different {BARE_NAME!r}",
+                      "own-prepended": "harness PATH starts with the server's own bin directory"}[hp])
     parts.append(f"requested={_req_names(cfg)!r}")
     return "; ".join(parts)
 
@@ -515,10 +671,9 @@ def run_one(ctl: explorer.Ctl, cfg: Dict[str, Any]) -> Dict[str, Any]:
         return _run_case(cfg, tmp, pids)
     finally:
         # whatever happened: no child of this case survives, nothing stays on disk
-        for d in sorted(os.listdir(tmp)) if os.path.isdir(tmp) else []:
-            for ev in _read_events(os.path.join(tmp, d, "events.jsonl")):
-                if ev.get("ev") == "start" and isinstance(ev.get("pid"), int) and ev["pid"] not in pids:
-                    pids.append(ev["pid"])
+        for root, _dirs, files in os.walk(tmp):
+            if "events.jsonl" in files:
+                _launches_in(root, pids)
         _reap(pids, marker, grace=0.0 if not pids else 2.0)
         shutil.rmtree(tmp, ignore_errors=True)
 
@@ -526,13 +681,24 @@ def run_one(ctl: explorer.Ctl, cfg: Dict[str, Any]) -> Dict[str, Any]:
 def _run_case(cfg: Dict[str, Any], tmp: str, pids: List[int]) -> Dict[str, Any]:
     entry = cfg["entry"]
     mal = cfg.get("malformed")
-    path, dirs, entries = _build(cfg, tmp)
+    path, specs, decoy_bin = _build(cfg, tmp)
+    host_path = cfg.get("host_path") or "plain"
     names = _req_names(cfg)
     rec: Dict[str, Any] = {}
     timed_out = False
     marker = os.fsencode(tmp + os.sep)
 
     with _parent_env():
+        if host_path == "decoy-prepended":
+            os.environ["PATH"] = str(decoy_bin) + os.pathsep + PARENT_ENV["PATH"]
+        elif host_path == "decoy-appended":
+            os.environ["PATH"] = PARENT_ENV["PATH"] + os.pathsep + str(decoy_bin)
+        elif host_path == "own-prepended":
+            os.environ["PATH"] = specs[0]["bindir"] + os.pathsep + PARENT_ENV["PATH"]
+        elif host_path != "plain":
+            raise core.HarnessError(f"unknown host_path {host_path!r}")
+        if host_path.startswith("decoy") and not decoy_bin:
+            raise core.HarnessError("grammar: decoy on the harness PATH but no server uses the bare command")
         # reference for "env absent or empty": what the library documents as the default environment,
         # evaluated under the same parent environment; restricted to the documented POSIX names so that
         # a reference which itself inherits everything cannot legitimise a leak
@@ -545,7 +711,8 @@ def _run_case(cfg: Dict[str, Any], tmp: str, pids: List[int]) -> Dict[str, Any]:
         if not expected_default:
             raise core.HarnessError("get_default_environment() names none of the documented variables: "
                                     "the env-absent comparison would be vacuous")
-        quiet = _Quiet()
+        # run_command closes its connections from another task and leaves the transports to the collector
+        quiet = _Quiet(collect=(entry == "run_command"))
         try:
             with _Watchdog(CASE_LIMIT_S):
                 with quiet:
@@ -564,19 +731,11 @@ def _run_case(cfg: Dict[str, Any], tmp: str, pids: List[int]) -> Dict[str, Any]:
         printed = quiet.text()
 
         # -- collect what the witnesses recorded, then make sure they are gone
-        launches: List[List[Dict[str, Any]]] = []
-        for d in dirs:
-            evs = _read_events(os.path.join(d, "events.jsonl"))
-            by_pid: Dict[int, Dict[str, Any]] = {}
-            for ev in evs:
-                pid = ev.get("pid")
-                if ev.get("ev") == "start":
-                    by_pid[pid] = {"argv": ev.get("argv") or [], "env": ev.get("env") or {}, "methods": []}
-                    if isinstance(pid, int):
-                        pids.append(pid)
-                elif ev.get("ev") == "recv" and pid in by_pid:
-                    by_pid[pid]["methods"].append([ev.get("method"), bool(ev.get("has_id"))])
-            launches.append([by_pid[p] for p in by_pid])  # insertion order = launch order
+        sinks: Dict[str, List[int]] = {}
+        for i, sp in enumerate(specs):
+            sinks.setdefault(sp["sink"], []).append(i)
+        launches: Dict[str, List[Dict[str, Any]]] = {sk: _launches_in(sk, pids) for sk in sinks}
+        decoy_launches = _launches_in(decoy_bin, pids) if decoy_bin else []
         _reap(pids, marker)
         loader_probe: Dict[str, str] = {}
 
@@ -590,11 +749,11 @@ def _run_case(cfg: Dict[str, Any], tmp: str, pids: List[int]) -> Dict[str, Any]:
         viol: List[Dict[str, Any]] = []
         text = case_text(cfg)
 
-        def add(sig: Dict[str, Any], msg: str):
-            viol.append({"sig": sig, "msg": f"{msg} :: {text}"})
-
         def norm(s: str) -> str:
-            return s.replace(tmp, "<TMP>").replace(sys.executable, "<PY>")
+            return s.replace(tmp, "<TMP>").replace(WITNESS_PY, "<PY>")
+
+        def add(sig: Dict[str, Any], msg: str):
+            viol.append({"sig": sig, "msg": norm(f"{msg} :: {text}")})
 
         diag = norm(printed).strip()
         obs: Dict[str, Any] = {"entry": entry, "case": text, "printed": diag[:400]}
@@ -608,83 +767,112 @@ def _run_case(cfg: Dict[str, Any], tmp: str, pids: List[int]) -> Dict[str, Any]:
 
         requested_idx = [r for r in cfg["request"] if isinstance(r, int)]
         bad_names = [r for r in cfg["request"] if not isinstance(r, int)]
-        per_server = []
+        judged_valid = not (mal and mal["class"] != "mixed")
+        per_sink = []
         n_launched = 0
         n_handshake = 0
 
-        for i, d in enumerate(dirs):
-            ls = launches[i]
-            summary: Dict[str, Any] = {"server": NAMES[i], "launches": len(ls)}
-            shape = cfg["servers"][i]
-            if i not in requested_idx or mal and mal["class"] != "mixed":
+        def effective_env(sp: Dict[str, Any]):
+            return dict(sp["env"]) if _with_values(sp["env"]) else "default"
+
+        def twin_of(i: int) -> str:
+            """Is another requested server configured with the same command and args?"""
+            me = specs[i]
+            same = [j for j in requested_idx if j != i and specs[j]["entry"]["command"] == me["entry"]["command"]
+                    and specs[j]["entry"]["args"] == me["entry"]["args"]]
+            if not same:
+                return "none"
+            return "env-differs" if any(effective_env(specs[j]) != effective_env(me) for j in same) else "env-same"
+
+        if decoy_launches:
+            bare = [specs[i] for i in requested_idx if specs[i]["mode"] >= 3] or [sp for sp in specs if sp["mode"] >= 3]
+            add({"class": "wrong-program-launched", "entry": entry, "resolution": MODES[bare[0]["mode"]],
+                 "host_path": host_path},
+                f"{len(decoy_launches)} launch(es) of the decoy {BARE_NAME!r} that only the harness's own PATH leads to "
+                f"(argv {[_hexs(L['argv']) for L in decoy_launches]!r}); the configuration names "
+                f"{[sp['entry']['command'] for sp in bare]!r} with env PATH "
+                f"{[(sp['entry'].get('env') or {}).get('PATH', '<default>') for sp in bare]!r}")
+
+        for sk, members in sinks.items():
+            ls = launches[sk]
+            req = [i for i in members if i in requested_idx] if judged_valid else []
+            who = [NAMES[i] for i in members]
+            summary: Dict[str, Any] = {"servers": who, "requested": len(req), "launches": len(ls)}
+            if not req:
                 if ls:
-                    if mal and mal["class"] != "mixed":
+                    if not judged_valid:
                         add({"class": "spawned-on-malformed-config", "entry": entry, "malformed": mal["class"]},
-                            f"server {NAMES[i]!r} was launched although the configuration request is malformed")
+                            f"server {who!r} was launched although the configuration request is malformed")
                     else:
                         add({"class": "unrequested-server-launched", "entry": entry},
-                            f"server {NAMES[i]!r} was launched but only {names!r} were requested")
-                per_server.append(summary)
+                            f"server {who!r} was launched but only {names!r} were requested")
+                per_sink.append(summary)
                 continue
-            # a requested server of a valid configuration
-            if not ls:
-                st = loader_status(NAMES[i])
-                add({"class": "not-launched", "entry": entry, "loader": st},
-                    f"server {NAMES[i]!r} was never launched (loader alone: {st}; error={rec.get('error')}; "
-                    f"printed={diag[:160]!r})")
-                per_server.append(summary)
-                continue
-            n_launched += 1
-            if len(ls) > 1:
+            sp = specs[req[0]]            # all members of one sink are indistinguishable launches (checked in _build)
+            shape = sp["shape"]
+            reqnames = [NAMES[i] for i in req]
+            if len(ls) < len(req):
+                st = loader_status(NAMES[req[-1]])
+                tw = twin_of(req[0]) if len(members) == 1 else "env-same"
+                for _ in range(len(req) - len(ls)):
+                    add({"class": "not-launched", "entry": entry, "loader": st, "twin": tw},
+                        f"requested server(s) {reqnames!r}: {len(ls)} launch(es) recorded, {len(req)} expected "
+                        f"(loader alone: {st}; another requested server with the same command+args: {tw}; "
+                        f"error={rec.get('error')}; printed={diag[:160]!r})")
+            if len(ls) > len(req):
                 add({"class": "launched-more-than-once", "entry": entry},
-                    f"server {NAMES[i]!r} was launched {len(ls)} times")
-            L = ls[0]
-            ent = entries[i]
-            exp_argv = [os.fsencode(x).hex() for x in [ent["command"], *ent["args"]]]
-            summary["argv_ok"] = L["argv"] == exp_argv
-            if not summary["argv_ok"]:
-                add({"class": "argv-mismatch", "entry": entry, "args": ARGS[shape[0]][0]},
-                    f"server {NAMES[i]!r}: child argv {[norm(x) for x in _hexs(L['argv'])]!r} != configured "
-                    f"{[norm(x) for x in _hexs(exp_argv)]!r}")
-            got_env = {}
-            for k, v in L["env"].items():
-                try:
-                    got_env[os.fsdecode(bytes.fromhex(k))] = os.fsdecode(bytes.fromhex(v))
-                except ValueError:
-                    pass
-            conf_env = ENVS[shape[1]][1]
-            if conf_env is not ABSENT and conf_env:
-                want = dict(conf_env)
-                kind = "configured"
-            else:
-                want = dict(expected_default)
-                kind = "default"
-            have = {k: got_env.get(k, ABSENT) for k in want}
-            summary["env_ok"] = have == want
-            if have != want:
-                add({"class": "env-mismatch", "entry": entry, "env": ENVS[shape[1]][0]},
-                    f"server {NAMES[i]!r}: child environment restricted to the {kind} names is {have!r}, expected {want!r}")
-            conf_keys = set(conf_env) if (conf_env is not ABSENT and conf_env) else set()
-            leaked = sorted(k for k in CANARIES if k not in conf_keys and k in got_env)
-            summary["leaked"] = leaked
-            if leaked:
-                add({"class": "env-leak", "entry": entry, "env": ENVS[shape[1]][0]},
-                    f"server {NAMES[i]!r}: parent-only variables {leaked!r} reached the child "
-                    f"(configured env: {'absent' if conf_env is ABSENT else repr(conf_env)})")
-            methods = [m for m, _ in L["methods"]]
-            summary["methods"] = methods
-            got_init = "initialize" in methods
-            got_inited = got_init and "notifications/initialized" in methods[methods.index("initialize") + 1:]
-            if got_init and got_inited:
-                n_handshake += 1
-            else:
-                add({"class": "no-handshake", "entry": entry,
-                     "missing": "initialize" if not got_init else "notifications/initialized"},
-                    f"server {NAMES[i]!r} was launched but the witness saw only {methods!r} "
-                    f"(error={rec.get('error')}, printed={diag[:160]!r})")
-            per_server.append(summary)
+                    f"requested server(s) {reqnames!r}: {len(ls)} launches recorded, {len(req)} expected")
+            n_launched += min(len(ls), len(req))
+            exp_argv = [os.fsencode(x).hex() for x in sp["exp_argv"]]
+            conf_env = sp["env"]
+            summary["argv_ok"], summary["env_ok"], summary["leaked"], summary["methods"] = [], [], [], []
+            for L in ls:
+                ok = L["argv"] == exp_argv
+                summary["argv_ok"].append(ok)
+                if not ok:
+                    add({"class": "argv-mismatch", "entry": entry, "args": ARGS[shape[0]][0], "launch": MODES[sp["mode"]]},
+                        f"server {reqnames!r}: child argv {_hexs(L['argv'])!r} != expected {_hexs(exp_argv)!r} "
+                        f"(configured command {sp['entry']['command']!r} args {sp['entry']['args']!r})")
+                got_env = {}
+                for k, v in L["env"].items():
+                    try:
+                        got_env[os.fsdecode(bytes.fromhex(k))] = os.fsdecode(bytes.fromhex(v))
+                    except ValueError:
+                        pass
+                if _with_values(conf_env):
+                    want = dict(conf_env)
+                    kind = "configured"
+                else:
+                    want = dict(expected_default)
+                    kind = "default"
+                have = {k: got_env.get(k, ABSENT) for k in want}
+                summary["env_ok"].append(have == want)
+                if have != want:
+                    add({"class": "env-mismatch", "entry": entry, "env": sp["env_name"]},
+                        f"server {reqnames!r}: child environment restricted to the {kind} names is {have!r}, "
+                        f"expected {want!r}")
+                conf_keys = set(conf_env) if _with_values(conf_env) else set()
+                leaked = sorted(k for k in CANARIES if k not in conf_keys and k in got_env)
+                summary["leaked"].append(leaked)
+                if leaked:
+                    add({"class": "env-leak", "entry": entry, "env": sp["env_name"]},
+                        f"server {reqnames!r}: parent-only variables {leaked!r} reached the child "
+                        f"(configured env: {'absent' if conf_env is ABSENT else repr(conf_env)})")
+                methods = [m for m, _ in L["methods"]]
+                summary["methods"].append(methods)
+                got_init = "initialize" in methods
+                got_inited = got_init and "notifications/initialized" in methods[methods.index("initialize") + 1:]
+                if got_init and got_inited:
+                    n_handshake += 1
+                else:
+                    add({"class": "no-handshake", "entry": entry,
+                         "missing": "initialize" if not got_init else "notifications/initialized"},
+                        f"server {reqnames!r} was launched but the witness saw only {methods!r} "
+                        f"(error={rec.get('error')}, printed={diag[:160]!r})")
+            per_sink.append(summary)
 
-        obs["servers"] = per_server
+        obs["servers"] = per_sink
+        obs["decoy_launches"] = len(decoy_launches)
 
         # -- documented loader return value (entry load_config only)
         if entry == "load_config" and not mal and rec.get("loader") == "ok":
@@ -735,7 +923,7 @@ def _run_case(cfg: Dict[str, Any], tmp: str, pids: List[int]) -> Dict[str, Any]:
             obs["outcome"] = (f"{tag} requested={len(cfg['request'])} launched={n_launched} "
                               f"handshakes={n_handshake}" + (" TIMEOUT" if timed_out else ""))
         obs["violations"] = viol
-        obs["counters"] = {"witness_launches": sum(len(x) for x in launches),
+        obs["counters"] = {"witness_launches": sum(len(x) for x in launches.values()) + len(decoy_launches),
                            "handshakes_seen_by_witness": n_handshake}
         return obs
 
@@ -822,8 +1010,46 @@ def configs_for(tier: str) -> Dict[str, Tuple[int, List[Dict[str, Any]]]]:
                     by_children.setdefault(n, []).append(
                         {"entry": "run_command", "servers": servers, "request": req, "cmdkind": "plain",
                          "malformed": {"class": "mixed"}})
+    # (4) servers that share command+args and differ only in env (or only in timeout / an extra key):
+    #     they are different servers, each requested one must be launched once, with its own env
+    for n in (2, 3):
+        pool = list(range(len(D_SHAPES))) if (n == 2 or thorough) else D_SHAPES_TRIPLES_QUICK
+        for combo in itertools.product(pool, repeat=n):
+            servers = [D_SHAPES[c] for c in combo]
+            hp = "decoy-prepended" if any(D_SHAPES[c][4] >= 3 for c in combo) else "plain"
+            if n == 2 or thorough:
+                for target in range(n):
+                    by_children.setdefault(1, []).append(
+                        {"entry": "load_config", "servers": servers, "request": [target], "host_path": hp})
+                    by_children.setdefault(1, []).append(
+                        {"entry": "test_server", "servers": servers, "request": [target], "verbose": False,
+                         "host_path": hp})
+                orders = [list(p) for sub in _subsets(n) for p in itertools.permutations(sub)]
+            else:
+                orders = [list(range(n)), list(reversed(range(n)))]
+            for req in orders:
+                kinds = ["plain", "interactive_mode"] if (len(req) == n and n == 2) else ["plain"]
+                for kind in kinds:
+                    by_children.setdefault(len(req), []).append(
+                        {"entry": "run_command", "servers": servers, "request": req, "cmdkind": kind, "host_path": hp})
     for k in sorted(by_children):
         parts[f"multi-server-{k}-child{'ren' if k > 1 else ''}"] = (k, by_children[k])
+
+    # (5) how the command is resolved: a bare name must be looked up on the PATH the child gets
+    #     (the configured env's PATH; the default env's PATH when env is absent), never on the harness's own
+    g = []
+    res_args = list(range(len(ARGS))) if thorough else [0, 2, 6]
+    for entry in ENTRIES:
+        extra = {"cmdkind": "plain"} if entry == "run_command" else ({"verbose": False} if entry == "test_server" else {})
+        for a in res_args:
+            for m, hp in ((4, "decoy-prepended"), (3, "plain"), (3, "decoy-prepended"), (3, "decoy-appended")):
+                for e, pf in ([(2, 0), (2, 1), (2, 2), (1, 0), (1, 1), (1, 2)] if thorough
+                              else [(2, 0), (2, 1), (2, 2), (1, 0)]):
+                    g.append({"entry": entry, "servers": [[a, e, 0, 0, m, pf]], "request": [0], "host_path": hp, **extra})
+            for e in (0, 1):
+                g.append({"entry": entry, "servers": [[a, e, 0, 0, 5, 0]], "request": [0], "host_path": "own-prepended",
+                          **extra})
+    parts["command-resolution"] = (1, g)
     return parts
 
 
@@ -861,6 +1087,10 @@ def run(tier: str, only=None) -> core.Result:
         "server_names_by_position": NAMES,
         "entry_points": ENTRIES,
         "multi_server_shapes": [shape_text(s) for s in R_SHAPES],
+        "same_command_and_args_shapes": [shape_text(s) for s in D_SHAPES],
+        "launch_modes": MODES,
+        "configured_PATH_forms": [f for _, f in PATH_FORMS],
+        "harness_PATH_variants": HOST_PATHS,
         "multi_server_shapes_used_by_file_size": {str(n): shapes_for(tier, n)
                                                   for n in range(1, (4 if tier == "thorough" else 3) + 1)},
         "max_servers_per_file": 4 if tier == "thorough" else 3,
@@ -880,13 +1110,28 @@ def run(tier: str, only=None) -> core.Result:
         "(thorough: the full set also reversed) with a plain command function, and with one named 'interactive_mode' (quick: only for "
         "the full set of names; thorough: for every subset), and run_command with all names plus one "
         "unknown name at every position (files of 1..2, thorough 1..3 servers).  "
+        "(4) files of 2 and 3 servers that all share command AND args and differ only in env (own record directory / own PATH "
+        "in env) or only in timeout / unknown keys, every assignment of 4 such shapes (quick: 3 shapes for triples): "
+        "load_config and test_server for every position, run_command for every non-empty subset in every order (quick, "
+        "triples: full set in file order and reversed), judged as 'exactly the requested servers, each once, each with its "
+        "own env'; (5) command resolution: the program is an executable '#!<python>' copy of the witness named by a bare "
+        "command name x {env PATH names only its directory, first, last} x {harness PATH without it, with a decoy of the same "
+        "name prepended, appended}, by absolute path (control), and bare with env absent/{} while the harness PATH (= the "
+        "default env's PATH) leads to it; x args x entry points; a launch of the decoy is a violation.  "
         "A case is non-trivial if it ran the entry point to completion; distinct = distinct observation digests "
         "(the observation contains the case description, what each witness recorded and what the entry point printed, "
         "with temp paths and the interpreter path normalised)"
     )
     res.assumptions = [
         "Linux: the witness reads its exact argv and environment bytes from /proc/self (falls back to sys.orig_argv / os.environ)",
-        "the command is always sys.executable with the witness script as first argument; relative commands and PATH lookup are not in the grammar",
+        "commands are the interpreter (sys._base_executable, i.e. the python underneath the venv) + witness script, a bare name resolved through a PATH, or an absolute path to a '#!' "
+        "wrapper; commands with a slash that are relative to the working directory are not in the grammar",
+        "for the '#!' wrapper the expected argv is [<interpreter>, <configured directory>/<name>, *args] (what the kernel "
+        "passes for an interpreter script), i.e. it also states WHICH file was resolved",
+        "a bare command with a configured env that has no PATH, or with an env-absent default PATH that does not lead to it, is "
+        "not generated (the outcome would depend on the platform's default search path)",
+        "servers recording into one shared place are generated only when their launches are indistinguishable (same command, "
+        "args and default env); then the number of launches must equal the number of requested servers among them",
         "the parent environment is fixed for the duration of each call (HOME, LOGNAME, PATH, SHELL, TERM, USER set to non-empty "
         "values not starting with '()'; canaries A, B, C20_CANARY); empty or '()'-prefixed parent values, LOG_LEVEL handling and "
         "non-POSIX default names are not exercised",
